@@ -239,6 +239,61 @@ func c12Finish(p *an.Prog, r *an.R) {
 			"an old shard is retired ("+what+") although a rename of a new shard may have failed (buildError is not tested between the rename loop and the removal): the repository loses shards that were never replaced")
 	}
 	r.Floor("C12.R3.retire-sites", 1, n)
+	// R6': files of a compound shard (other repositories live there) are never removed by Finish
+	notCompound := func(gi *an.G, ii *types.Info) func(cond ast.Expr, truth bool) bool {
+		return func(cond ast.Expr, truth bool) bool {
+			if truth {
+				return false
+			}
+			switch x := ast.Unparen(cond).(type) {
+			case *ast.SelectorExpr:
+				return x.Sel.Name == "ShardMerging"
+			case *ast.CallExpr:
+				if fn := an.Callee(ii, x); fn != nil && fn.Pkg() != nil && fn.Pkg().Path() == "strings" && fn.Name() == "HasPrefix" && len(x.Args) == 2 {
+					tv := ii.Types[x.Args[1]]
+					return tv.Value != nil && strings.Contains(tv.Value.String(), "compound-")
+				}
+			}
+			return false
+		}
+	}
+	nc := 0
+	for _, l := range g.Locs(func(nd ast.Node) bool { return len(an.CallsTo(info, nd, false, retirers...)) > 0 }) {
+		if len(an.CallsTo(info, g.Node(l), false, setTomb)) > 0 {
+			continue
+		}
+		afterRename := false
+		for _, rn := range renames {
+			if g.Reach(rn, true, &an.Search{Target: func(k an.Loc) bool { return k == l }}) {
+				afterRename = true
+			}
+		}
+		if !afterRename {
+			continue
+		}
+		ok := g.GuardedBy(l, notCompound(g, info), nil)
+		if !ok && len(an.CallsTo(info, g.Node(l), false, remove)) == 0 {
+			// the removal sits in a helper: the guard may be there
+			for _, c := range an.CallsTo(info, g.Node(l), false, retirers[2:]...) {
+				if hd := p.Decl(an.Callee(info, c)); hd != nil {
+					hi := hd.Pkg.TypesInfo
+					hg := an.NewG(hi, hd.Decl.Body)
+					all := true
+					for _, hl := range hg.Locs(func(nd ast.Node) bool { return len(an.CallsTo(hi, nd, false, remove)) > 0 }) {
+						if !hg.GuardedBy(hl, notCompound(hg, hi), nil) {
+							all = false
+						}
+					}
+					ok = all
+				}
+			}
+		}
+		nc++
+		r.Check(ok, "C12.R3", "index.(*Builder).Finish/remove/never-a-compound-shard-file", g.Node(l).Pos(),
+			"os.Remove of an old file is reached only when shard merging is off or the file is not compound-prefixed (compound shards get a tombstone instead)",
+			"with shard merging on, a file with the compound- prefix can reach os.Remove: the compound shard (or its .meta sidecar holding the tombstones of other repositories) is deleted, repositories that were replaced earlier come back next to their new shards")
+	}
+	r.Floor("C12.R3.remove-sites-after-rename", 1, nc)
 	// every return reachable from a rename returns b.buildError
 	for _, l := range g.Locs(func(nd ast.Node) bool { _, ok := nd.(*ast.ReturnStmt); return ok }) {
 		reach := false
